@@ -16,7 +16,7 @@ MANIFEST = dict(
          "mode, all under recover(); after a successfully executed transaction the block is committed, the node's state readers are run and a probe "
          "transaction per governance call is sent through all layers again.  A panic is a violation; which rejection is returned is not compared.",
     note="states of the sender classes are built by the real executor; contract VM replaced by the overlay stub (governance does not use it); "
-         "fee delegation admission needs the chain service actor and ends as a rejection in the harness; byte-level coverage is sampled per class",
+         "fee delegation answered by a stand-in for the chain service actor over the VM stub; byte-level coverage is sampled per class",
     technique="TLA+/TLC exhaustive enumeration of an abstract input grammar with per-layer outcome model; concretisation of every enumerated "
               "case into the real entry points under recover(); two-transaction sequences (executed transaction, then probes) on the committed state")
 SPEC_DIR = os.path.join(vlib.SPEC, "admission")
@@ -53,22 +53,29 @@ def run(c):
               "governance payloads; distinct = distinct (world, sender, shape)")
     c.assumptions = ["in-memory key-value store (aergo-lib memorydb) stands for the disk store",
                      "pure-Go stub for the contract VM (overlay); governance transactions do not reach it",
-                     "mempool built without actor hub: fee-delegation admission always ends with an error after the local checks",
+                     "the pool asks a stand-in chain service (same code as chain.ChainWorker, VM stub) whether a contract pays the fee",
                      "every class of the abstract grammar is sampled by a few seeded concrete values (DESIGN §7)",
                      "TLC 1.8.0"]
-    # 1. design-level checks
-    mc = "MC_Admission.cfg" if quick else "MC_Admission_big.cfg"
-    res = vlib.tlc(SPEC_DIR, "MC_Admission", mc, c.work, timeout=1500)
-    c.require_ok(res, "Admission design: every shape gets an outcome at every layer it reaches; admitted => executed; layers in order; terminates")
-    res = vlib.tlc(SPEC_DIR, "MC_Admission", "MC_Admission_seq.cfg", c.work, timeout=1500)
-    c.require_ok(res, "Admission design, two-transaction behaviours (every executed transaction followed by every probe)")
-    # 2. enumeration of the cases with the specification's outcome per layer
-    gen = vlib.tlc(SPEC_DIR, "MC_Admission", "Gen_Admission.cfg" if quick else "Gen_Admission_big.cfg", c.work, workers=1, timeout=1500)
-    c.require_ok(gen, "Admission case enumeration")
+    # 1. design-level checks and 2. enumeration of the cases with the specification's outcome per layer (independent TLC runs)
+    from concurrent.futures import ThreadPoolExecutor
+    jobs = [("MC_Admission.cfg" if quick else "MC_Admission_big.cfg", None,
+             "Admission design: every shape gets an outcome at every layer it reaches; admitted => executed; layers in order; no deadlock"),
+            ("MC_Admission_seq.cfg", 4, "Admission design, two-transaction behaviours (every executed transaction followed by every probe, now or a day later)"),
+            ("Gen_Admission.cfg" if quick else "Gen_Admission_big.cfg", 1, "Admission case enumeration")]
+    with ThreadPoolExecutor(3) as ex:
+        futs = [ex.submit(vlib.tlc, SPEC_DIR, "MC_Admission", cfg, os.path.join(c.work, "tlc%d" % i), workers=w, timeout=2400)
+                for i, (cfg, w, _) in enumerate(jobs)]
+        results = [f.result() for f in futs]
+    for (cfg, w, what), res in zip(jobs, results):
+        c.require_ok(res, what)
+    gen = results[2]
     cases, probes, worlds = parse_cases(gen.out)
     if len(cases) < 5000 or not probes or not worlds:
         raise vlib.Infra("case enumeration incomplete: %d cases, probes=%s worlds=%s" % (len(cases), bool(probes), bool(worlds)))
-    cases.sort(key=lambda x: json.dumps(x, sort_keys=True))
+    uniq = {}
+    for x in cases:            # a shape may belong to two families
+        uniq[json.dumps(x, sort_keys=True)] = x
+    cases = [uniq[k] for k in sorted(uniq)]
     worlds = sorted(worlds, key=lambda w: w["name"])
     probes = sorted(probes, key=lambda x: json.dumps(x, sort_keys=True))
     for p in probes:
@@ -84,7 +91,7 @@ def run(c):
         raise vlib.Infra("harness failed:\n" + output[-3000:])
     ex = r.get("extra") or {}
     c.exhaustive = True
-    c.extra["exhaustive_note"] = ("exhaustive over the abstract grammar of Admission.tla (%d cases on %d worlds, argument lists <= %d); "
+    c.extra["exhaustive_note"] = ("exhaustive over the abstract grammar of Admission.tla (%d cases on %d worlds, argument lists <= %d where the calls live); "
                                   "inside every class the bytes are sampled (%d seeded concretisations per case); the byte-level mutation "
                                   "driver is sampled" % (len(cases), len(worlds), 2 if quick else 3, inp["variants"]))
     c.extra["outcomes"] = ex.get("outcomes")
